@@ -1590,6 +1590,14 @@ for _pid in ["C01", "C02", "C03", "C04", "C05", "C06", "C07", "C08", "C09", "C10
        _generic.index_unpacking)
     ok(_pid, "temporaries, keyword arguments, renaming, branch flipping, comparison swapping and "
              "keyword reversal combined", _generic.all_rewrites)
+    ok(_pid, "extract method everywhere: top-level loops / branches / with-blocks of every function "
+             "moved into new private helpers", _generic.extract_blocks)
+    ok(_pid, "two-armed ifs that assign one target written as conditional expressions",
+       _generic.conditional_expressions)
+    ok(_pid, "two-armed ifs with a plain default written as `x = default` + one-armed if",
+       _generic.default_first)
+    ok(_pid, "final return copied into the arms of the preceding if / elif / else",
+       _generic.return_in_branches)
 
 ok("C02", "selector locals renamed in Tempo._influence", _multi(
     _sub(TE, "tmp_deg_positions", "positions_pair", count=100)))
